@@ -67,7 +67,17 @@ def run_impl(case):
         warnings.simplefilter("ignore")
         try:
             if case["kind"] == "particles":
-                ec = EventCharacteristics(mk_particles(case["particles"]))
+                if case.get("prev"):
+                    # one EventCharacteristics object used before on other event data (a lattice or other particles)
+                    pv = case["prev"]
+                    ec = EventCharacteristics(mk_lattice(pv) if pv["kind"] == "lattice" else mk_particles(pv["particles"]))
+                    try:
+                        ec.eccentricity(case["n"], case["m"]) if pv["kind"] == "lattice" else ec.eccentricity(case["n"], case["m"], case["weight"])
+                    except Exception:
+                        pass
+                    ec.set_event_data(mk_particles(case["particles"]))
+                else:
+                    ec = EventCharacteristics(mk_particles(case["particles"]))
                 v = ec.eccentricity(case["n"], case["m"], case["weight"]) if not case.get("direct") else \
                     ec.eccentricity_from_particles(case["n"], case["m"], case["weight"])
             else:
@@ -83,6 +93,16 @@ def run_impl(case):
                     except Exception:
                         pass
                     L.grid_[...] = final
+                elif case.get("prev"):
+                    # one EventCharacteristics object evaluated on another lattice (same node counts, other extents) or on particles
+                    # first, then handed the current lattice through set_event_data
+                    pv = case["prev"]
+                    ec = EventCharacteristics(mk_lattice(pv) if pv["kind"] == "lattice" else mk_particles(pv["particles"]))
+                    try:
+                        ec.eccentricity(case["hn"], case["m"])
+                    except Exception:
+                        pass
+                    ec.set_event_data(mk_lattice(case))
                 else:
                     ec = EventCharacteristics(mk_lattice(case))
                 v = ec.eccentricity(case["hn"], case["m"])
@@ -241,13 +261,31 @@ def gen_lattice(rng):
         dens = [d if rng.random() < 0.8 else -d for d in dens]
     case = {"kind": "lattice", "hn": rng.choice([1, 2, 2, 3, 4, 5]), "m": rng.choice([None, None, 1, 2, 3, 4]),
             "ext": ext, "n": n, "dens": dens}
-    if rng.random() < 0.4:
+    r = rng.random()
+    if r < 0.35:
         case["late_fill"] = rng.choice(["zeros", "other"])
+    elif r < 0.7:
+        if rng.random() < 0.8:
+            ext2 = []
+            for d in range(3):
+                lo = rng.choice([-3.0, -1.5, 0.5, 1.0, -6.0])
+                ext2 += [lo, lo + rng.choice([1.5, 2.0, 5.0, 6.0])]
+            case["prev"] = {"kind": "lattice", "ext": ext2, "n": list(n), "dens": [float(rng.choice([0, 1, 2, 0.5])) for _ in dens]}
+        else:
+            case["prev"] = {"kind": "particles", "particles": [{"x": 1.0, "y": 0.5, "E": 1.0}, {"x": -2.0, "y": 1.0, "E": 2.0}]}
     return case
 
 
 def gen_case(rng, small=False):
-    return gen_lattice(rng) if rng.random() < 0.25 and not small else gen_particles(rng, small)
+    if rng.random() < 0.25 and not small:
+        return gen_lattice(rng)
+    case = gen_particles(rng, small)
+    if not small and rng.random() < 0.15:
+        pv = gen_lattice(rng)
+        case["prev"] = {"kind": "lattice", "ext": pv["ext"], "n": pv["n"], "dens": pv["dens"]} if rng.random() < 0.5 else \
+            {"kind": "particles", "particles": [{"x": 1.0, "y": 0.5, "E": 1.0, "charge": 1, "baryon_number": 1, "strangeness": 0},
+                                                {"x": -2.0, "y": 1.0, "E": 2.0, "charge": -1, "baryon_number": 0, "strangeness": 1}]}
+    return case
 
 
 # ----------------------------------------------------------------------------- Coq side
